@@ -117,7 +117,7 @@ def search(acc: Acc, tier, shard, nshards):
         ch = model.Ch(data.draw)
         quotes = ch.choice([['"'], ["'"], ['"', "'"]])
         prof = model.Profile(max_depth=4, max_items=6, forbid="".join(quotes), lookalike_multi=False)
-        doc = model.Gen(ch, prof).document()
+        doc = model.any_document(model.Gen(ch, prof))
         text = render.render(doc, render.Surface(ch)).text
         try:
             d = W.loads(text)
